@@ -59,9 +59,18 @@ def _tsan_fits(ck, wd, tier, seed):
         log = os.path.join(wd, "thr%d.ndjson" % nt)
         rc, so, err, _ = vlib.run_driver(exe, ["threads", af, pf, str(seed), log], timeout=120 if tier == "quick" else 900,
                                          env={"OMP_NUM_THREADS": str(nt), "TSAN_OPTIONS": "halt_on_error=0:exitcode=66:second_deadlock_stack=1"})
-        races = err.count("WARNING: ThreadSanitizer")
+        # One report = from "WARNING: ThreadSanitizer" to its SUMMARY line.  A report in which one of the two threads was created
+        # by libgomp concerns the OpenMP parallelism inside CHOLMOD / BLAS (their barriers are invisible to ThreadSanitizer, which
+        # then flags e.g. cholmod_l_clear_flag's memset against a memset in a finished parallel region): photospline creates its
+        # workers with pthread_create in walk_descents and uses no OpenMP construct, so such a report says nothing about it.
+        reports = ["WARNING: ThreadSanitizer" + r for r in err.split("WARNING: ThreadSanitizer")[1:]]
+        own = [r for r in reports if "libgomp.so" not in r]
+        ck.cov["tsan_reports_inside_third_party_openmp"] = ck.cov.get("tsan_reports_inside_third_party_openmp", 0) + len(reports) - len(own)
+        races = len(own)
+        if rc == 66 and not own:
+            rc = 0
         if races or rc == 66:
-            first = err[err.find("WARNING: ThreadSanitizer"):][:2500]
+            first = (own[0] if own else err[err.find("WARNING: ThreadSanitizer"):])[:2500]
             kind = "data-race" if "data race" in first else ("lock-order" if "lock-order" in first else "tsan-report")
             ck.violation({"class": "tsan-" + kind, "workers": nt}, {"what": "ThreadSanitizer report during monotonic fits with %d worker threads" % nt, "report": first})
             if rc not in (0, 66):
